@@ -474,7 +474,7 @@ theorem ss_clear : StepSim s a .clear := by
 
 theorem ss_tick (δ : Nat) : StepSim s a (.tick δ) := by
   unfold StepSim OutRel
-  simp only [step, TTL.step]
+  simp only [step, TTL.step, TTL.tick]
   refine ⟨⟨⟨h.wf.nodup, h.wf.epos, ?_⟩, ?_, ?_, h.dflt, h.cb, ?_⟩, ?_, ?_⟩ <;> try trivial
   · have := h.wf.now0; simp only; omega
   · exact WF_vfilter a.live (fun i => !TTL.expired i.e (a.now + ↑δ)) h.awf
@@ -491,6 +491,57 @@ theorem ss_tick (δ : Nat) : StepSim s a (.tick δ) := by
       · have := expired_mono i.e s.now (s.now + δ) (by omega) he
         simp [he, this]
       · by_cases he2 : TTL.expired i.e (s.now + ↑δ) = true <;> simp [he, he2]
+
+/-- the states after a clock advance are related (the state half of `ss_tick`) -/
+theorem tick_sim (δ : Nat) : Sim ({ s with now := s.now + δ } : St K V) (TTL.tick a δ) :=
+  (ss_tick s a h δ).1
+
+theorem ss_getOrComputeSlow (k : K) (f : V) (d : Int) (δ : Nat) : StepSim s a (.getOrComputeSlow k f d δ) := by
+  have h1 := tick_sim s a h δ
+  unfold StepSim OutRel
+  cases hg : s.items.get k with
+  | none =>
+    simp only [step, TTL.step, AMap.compute, hg, lget_none s a h k hg, Bool.false_eq_true, if_false]
+    have := sim_fresh _ _ h1 k f d
+    refine ⟨by simpa [expiration_eq'] using this, ?_, ?_⟩ <;> simp [logical]
+  | some i =>
+    by_cases he : TTL.expired i.e s.now = true
+    · simp only [step, TTL.step, AMap.compute, hg, lget_dead s a h k i hg he, expired_eq, he, Bool.not_true,
+        Bool.false_eq_true, if_false]
+      have := sim_fresh _ _ h1 k f d
+      refine ⟨by simpa [expiration_eq'] using this, ?_, ?_⟩ <;> simp [logical]
+    · simp only [step, TTL.step, AMap.compute, hg, lget_live s a h k i hg he, expired_eq, he, Bool.not_false,
+        if_true, Bool.false_eq_true, if_false]
+      close_with (sim_restore s a h k i hg)
+
+theorem ss_computeSlow (k : K) (g : Option V → V × Bool) (d : Int) (δ : Nat) : StepSim s a (.computeSlow k g d δ) := by
+  have h1 := tick_sim s a h δ
+  have hold : liveOld s (s.items.get k) = (a.live.get k).map (·.v) := by
+    rw [h.get k]; unfold lget liveOld
+    cases hg : s.items.get k with
+    | none => rfl
+    | some i => by_cases he : TTL.expired i.e s.now = true <;> simp [expired_eq, he]
+  unfold StepSim OutRel
+  simp only [step, TTL.step, hold]
+  generalize (a.live.get k).map (·.v) = old
+  by_cases hd : (g old).2 = true
+  · have hs := sim_erase _ _ h1 k
+    cases hg : s.items.get k with
+    | none =>
+      simp only [AMap.compute, hg, hd, if_true, Bool.false_eq_true, if_false]
+      have : s.items.erase k = s.items := erase_of_get_none _ _ hg
+      refine ⟨by simpa [this] using hs, ?_, ?_⟩ <;> simp [logical]
+    | some i =>
+      simp only [AMap.compute, hg, hd, if_true, Bool.false_eq_true, if_false]
+      refine ⟨by simpa using hs, ?_, ?_⟩ <;> simp [logical]
+  · have hs := sim_fresh _ _ h1 k (g old).1 d
+    cases hg : s.items.get k with
+    | none =>
+      simp only [AMap.compute, hg, hd, Bool.false_eq_true, if_false, if_true]
+      refine ⟨by simpa [expiration_eq'] using hs, ?_, ?_⟩ <;> simp [logical]
+    | some i =>
+      simp only [AMap.compute, hg, hd, Bool.false_eq_true, if_false, if_true]
+      refine ⟨by simpa [expiration_eq'] using hs, ?_, ?_⟩ <;> simp [logical]
 
 theorem step_sim (op : Op K V) : StepSim s a op := by
   cases op with
@@ -518,6 +569,8 @@ theorem step_sim (op : Op K V) : StepSim s a op := by
   | evictedCallback => exact ⟨h, by simp [OutRel, step, TTL.step, logical, h.cb], rfl⟩
   | setEvictedCallback c => exact ⟨⟨⟨h.wf.nodup, h.wf.epos, h.wf.now0⟩, h.awf, h.now, h.dflt, rfl, h.get⟩, rfl, rfl⟩
   | tick δ => exact ss_tick s a h δ
+  | getOrComputeSlow k f d δ => exact ss_getOrComputeSlow s a h k f d δ
+  | computeSlow k g d δ => exact ss_computeSlow s a h k g d δ
 
 end ops
 
